@@ -11,6 +11,22 @@ GS = opaque_sort("Geometry")
 AFF = z3.Function("affinity", GS, GS, z3.RealSort(), z3.RealSort(), z3.RealSort())
 
 
+def memo_by_identity(handler):
+    """a deterministic function called twice with the very same symbolic values returns the same value (the argument
+    objects are kept alive so that their identity stays unique)"""
+    cache = {}
+
+    def h(ex, p, args, kw, node):
+        key = tuple(id(a) for a in args)
+        if key in cache:
+            _, res, facts = cache[key]
+            return [(p.fork(*facts), res)]
+        (p2, res), = handler(ex, p, args, kw, node)
+        cache[key] = (args, res, p2.cond[len(p.cond):])
+        return [(p2, res)]
+    return h
+
+
 def setup():
     v = with_models(new_verifier())
     for mod in ("contracts.geometry", "contracts.encoding", "contracts.schema", "contracts.matching", "contracts.detection"):
@@ -19,9 +35,113 @@ def setup():
     from pyvc.array_model import ARRAY_MODEL
     v.handlers.update(ARRAY_MODEL)
     v.handlers["float"] = lambda ex, p, args, kw, node: [(p, Num(ex.as_num(args[0], p, node)[1].real()))]
-    v.inline |= {"soundevent.evaluation.tasks.sound_event_detection." + f for f in ("evaluate_clip", "evaluate_sound_event")}
-    v.inline |= {"contracts.matching.count_first", "contracts.matching.count_second"}
+    f32 = z3.Function("float32", z3.RealSort(), z3.RealSort())
+    v.handlers["numpy.float32#cast"] = lambda ex, x: f32(x.real())
+    v.handlers["contracts.encoding.as_float32"] = lambda ex, p, args, kw, node: [(p, Num(f32(args[0].real())))]
+    D = "soundevent.evaluation.tasks.sound_event_detection."
+    v.inline |= {D + "evaluate_clip", D + "evaluate_sound_event", "soundevent.evaluation.metrics.true_class_probability",
+                 "contracts.matching.count_first", "contracts.matching.count_second"}
+    # callees seen through their contracts: C19 (encoders), C07 (matching), C06 (affinity), this file (_mean, classification_score)
+    v.use("Classification", "Prediction", "ClassificationScore", "Mean")
+    classify = memo_by_identity(v.handlers["contracts.encoding.classify_with"])
+    predict = memo_by_identity(v.handlers["contracts.encoding.prediction_with"])
+    v.handlers["contracts.encoding.classify_with"] = classify
+    v.handlers["contracts.encoding.prediction_with"] = predict
+    ENC = opaque_sort("Encoder")
+
+    def encoder_of(ex, p, args, kw, node):
+        vocab = args[0] if args else kw["tags"]
+        ex.trace["assumed"].add("create_tag_encoder / classification_encoding / prediction_encoding under their C19 contracts")
+        return [(p, Opq("Encoder", ex.fresh_sym(ENC, "enc", node), {"vocab": vocab}))]
+
+    def encoding(h):
+        def f(ex, p, args, kw, node):
+            tags = kw.get("tags", args[0] if args else None)
+            enc = kw.get("encoder", args[1] if len(args) > 1 else None)
+            return h(ex, p, [enc.meta["vocab"], tags], {}, node)
+        return f
+    v.handlers["soundevent.evaluation.encoding.create_tag_encoder"] = encoder_of
+    v.handlers["soundevent.evaluation.encoding.classification_encoding"] = encoding(classify)
+    v.handlers["soundevent.evaluation.encoding.prediction_encoding"] = encoding(predict)
+
+    def affinity(ex, p, args, kw, node):
+        """compute_affinity under its C06 contract: a function of its arguments with values in [0, 1]"""
+        g1, g2 = args[0], args[1]
+        tb = kw.get("time_buffer", args[2] if len(args) > 2 else Num(0.01))
+        fb = kw.get("freq_buffer", args[3] if len(args) > 3 else Num(100))
+        t = AFF(g1.t, g2.t, tb.real(), fb.real())
+        ex.trace["assumed"].add("compute_affinity contract (C06): deterministic, value in [0, 1]")
+        return [(p.assume(t >= 0, t <= 1), Num(t))]
+    v.handlers["soundevent.evaluation.affinity.compute_affinity"] = affinity
+
+    def best_sum(ex, p, args, kw, node):
+        src, tgt, tb, fb = args
+        n, m = len(src.items), len(tgt.items)
+        best = z3.RealVal(0)
+        for k in range(0, min(n, m) + 1):
+            for rs in itertools.combinations(range(n), k):
+                for cs in itertools.permutations(range(m), k):
+                    tot = sum([AFF(src.items[r].t, tgt.items[c].t, tb.real(), fb.real()) for r, c in zip(rs, cs)], z3.RealVal(0))
+                    best = z3.If(tot > best, tot, best)
+        return [(p, Num(best))]
+    v.handlers["contracts.matching.best_pairing_sum"] = best_sum
+
+    mg = v.contracts["MatchGeometries"]
+
+    def match_geometries(ex, p, args, kw, node):
+        """match_geometries through its C07 contract, for concrete list lengths: one path per result shape, the affinities
+        symbolic and constrained by the contract's postcondition (the callee's body is not consulted)"""
+        values = v.bind(mg, args, kw, ex, p)
+        src, tgt = ex.as_list(values["source"], p, node), ex.as_list(values["target"], p, node)
+        if not (src.concrete and tgt.concrete):
+            raise Unsupported("match_geometries contract use needs concrete list lengths")
+        def unwrap(lst, which):
+            out = []
+            for k, g in enumerate(lst.items):
+                if isinstance(g, Opt):   # Optional[Geometry] at the call site: must be a geometry here (own side obligation)
+                    ex.side.append((f"call-pre/MatchGeometries-{which}[{k}]-is-a-geometry@{ex.module.name}:{node.lineno}", list(p.cond), z3.Not(g.isnone)))
+                    g = g.val
+                out.append(g)
+            return Lst(items=out)
+        src, tgt = unwrap(src, "source"), unwrap(tgt, "target")
+        values["source"], values["target"] = src, tgt
+        n, m = len(src.items), len(tgt.items)
+        ex.side.append((f"call-pre/MatchGeometries@{ex.module.name}:{node.lineno}", list(p.cond), v.pred(ex, mg, "requires", values, p)))
+        ex.trace["assumed"].add("MatchGeometries contract (C07)")
+        out = []
+        # every list the contract allows, by shape: a partial one-to-one pairing, the unpaired indices, in any order (the
+        # indices are concrete on each path so that the events looked up by index are the caller's own objects)
+        for k in range(min(n, m) + 1):
+            for rs in itertools.combinations(range(n), k):
+                for cs in itertools.permutations(range(m), k):
+                    entries = list(zip(rs, cs)) + [(i, None) for i in range(n) if i not in rs] + [(None, j) for j in range(m) if j not in cs]
+                    for order in itertools.permutations(entries):
+                        tag = fresh_name("mg_")
+                        res = Lst(items=[Tup([NONE if i is None else Num(i), NONE if j is None else Num(j), Num(z3.Real(f"{tag}a{t}"))])
+                                         for t, (i, j) in enumerate(order)])
+                        extra = []
+                        post = v.pred(ex, mg, "ensures", {**values, "result": res}, p, assumptions_out=extra)
+                        p2 = p.assume(*extra, post)
+                        if ex.feasible(p2.cond):
+                            out.append((p2, res))
+        return out
+    v.handlers["soundevent.evaluation.match.match_geometries"] = match_geometries
     return v
+
+
+def event(sb, cls, name):
+    """a sound event annotation / prediction whose sound event may or may not have a (valid, opaque) geometry"""
+    o = sb.make("Obj:" + cls, name)
+    o.fields["sound_event"].fields["geometry"] = Opt(z3.Bool(name + ".geometry.isnone"), Opq("Geometry", z3.Const(name + ".geometry", GS)))
+    return o
+
+
+def clip_pair(sb, na, npred):
+    ann = sb.make("Obj:soundevent.data.clip_annotations.ClipAnnotation", "clip_annotations")
+    prd = sb.make("Obj:soundevent.data.clip_predictions.ClipPrediction", "clip_predictions")
+    ann.fields["sound_events"] = Lst(items=[event(sb, "soundevent.data.sound_event_annotations.SoundEventAnnotation", f"a{i}") for i in range(na)])
+    prd.fields["sound_events"] = Lst(items=[event(sb, "soundevent.data.sound_event_predictions.SoundEventPrediction", f"q{i}") for i in range(npred)])
+    return ann, prd
 
 
 def obligations(v, name):
@@ -32,19 +152,51 @@ def obligations(v, name):
     if name.startswith("_mean["):
         n = int(name[6:-1])
         return v.verify("Mean", "C08", tag=f"[{n}]", fixed={"scores": lambda sb: Lst(items=[sb.make("Optional[float]", f"s{i}") for i in range(n)])})
+    if name == "evaluate_sound_event":
+        return v.verify("EvaluateSoundEvent", "C08", fixed={
+            "sound_event_prediction": lambda sb: event(sb, "soundevent.data.sound_event_predictions.SoundEventPrediction", "q"),
+            "sound_event_annotation": lambda sb: event(sb, "soundevent.data.sound_event_annotations.SoundEventAnnotation", "a")})
+    if name.startswith("evaluate_clip["):
+        na, npred = map(int, name[14:-1].split("x"))
+        box = {}
+
+        def ann(sb):
+            box["pair"] = clip_pair(sb, na, npred)
+            return box["pair"][0]
+        return v.verify("EvaluateClip", "C08", tag=f"[{na}x{npred}]", types={"vocab": "List[Obj:soundevent.data.tags.Tag]"},
+                        fixed={"clip_annotations": ann, "clip_predictions": lambda sb: box["pair"][1]})
     raise KeyError(name)
 
 
-NAMES = ["classification_score", "iterate_over_valid_clips"] + [f"_mean[{n}]" for n in range(4)]
+SIZES = [(0, 0), (0, 1), (1, 0), (1, 1), (1, 2), (2, 1)]
+SIZES_THOROUGH = [(0, 2), (2, 0), (2, 2)]
+BASE = ["classification_score", "iterate_over_valid_clips", "evaluate_sound_event"] + [f"_mean[{n}]" for n in range(4)]
 
 
 def run(s):
     v = setup()
     s.ver = v
-    tasks = [task(v, nm, lambda nm=nm: obligations(v, nm)) for nm in NAMES]
-    s.attempt_all(tasks)
-    s.min_obligations = 5
+    sizes = SIZES + (SIZES_THOROUGH if s.tier == "thorough" else [])
+    names = BASE + [f"evaluate_clip[{a}x{b}]" for a, b in sizes]
+    s.attempt_all([task(v, nm, lambda nm=nm: obligations(v, nm)) for nm in names])
+    s.min_obligations = 800
     s.discharge_all()
     s.triage()
     s.standin("detection_small")
     s.level = "other"
+    s.explanation = ("Unbounded, from the real bodies: iterate_over_valid_clips yields exactly the predicted clips that are annotated, in "
+                     "order, each with an annotation of the same clip; classification_score; evaluate_sound_event (source, target, the "
+                     "affinity handed in, score = probability of the annotation's class). BOUNDED in list sizes (labelled so, not counted "
+                     "as proved): the real evaluate_clip for every number of annotated x predicted events up to "
+                     + ("2 x 2" if s.tier == "thorough" else "1 x 2 / 2 x 1 (2 x 2 in the thorough tier)")
+                     + " with every event's geometry symbolically present or absent, against the statement -- ClipEvaluation built without a "
+                     "validation error, every event in exactly one match, pairs only with positive affinity reporting that affinity and the "
+                     "true-class probability, unpaired events 0 / 0, clip score = mean of match scores -- seeing match_geometries (C07), the "
+                     "encoders (C19), compute_affinity (C06), _mean and classification_score only through their contracts; _mean for 0-3 "
+                     "scores. The stand-in detection_small runs the whole task (clips <= 3, events <= 3 + 3) against an independent reference.")
+    s.trusted |= {"MatchGeometries contract (C07, itself bounded n, m <= 2)", "encoder contracts (C19)", "compute_affinity contract (C06)",
+                  "numpy: mean = sum / count, isnan false on reals, arr.sum() a function of the array",
+                  "pydantic construction contract (Match, ClipEvaluation validators executed from their real bodies)",
+                  "encoded scores lie in [0, 1] and sum to at most 1 (precondition: single-label scoring, float32 rounding is monotone)",
+                  "engine lemma: uniqueness of the order-preserving enumeration of a filter (paper proof by induction)",
+                  "sound_event_detection / _evaluate_clips glue and the run metrics: stand-in only (C09 for the metric values)"}
